@@ -101,6 +101,7 @@ type Stack struct {
 	AB      *authboss.Authboss
 	Handler http.Handler
 	W       *World
+	Split   *Split // free-running race pass: a private world per client (see Split)
 
 	Lock    *lock.Lock
 	Confirm *confirm.Confirm
@@ -186,6 +187,40 @@ func (s *Stack) note(format string, args ...interface{}) {
 	}
 }
 
+// Split mode (free-running race pass only): every client gets a private copy of the world and a
+// private mutex, so that the harness itself creates no happens-before edge between two clients'
+// requests. With a single shared world and one mutex, every storer / jar / outbox access orders
+// the clients' goroutines, and the race detector (which reports unordered conflicting accesses)
+// goes blind to races inside the library whenever the accesses happen to be separated by such
+// an edge. Clients act on disjoint accounts and browsers, so a private world behaves like the
+// shared one for them; cross-talk is the scheduled passes' business, not this pass's.
+type Split struct {
+	W    map[string]*World      // browser -> private world
+	Mu   map[string]*sync.Mutex // browser -> its mutex
+	Addr map[string]string      // e-mail address -> browser (mail delivery without a context)
+}
+
+// worldB returns the world a browser's requests act on.
+func (s *Stack) worldB(b string) *World {
+	if s.Split != nil {
+		if w := s.Split.W[b]; w != nil {
+			return w
+		}
+	}
+	return s.W
+}
+
+// guardB is guard for the data of one browser's world.
+func (s *Stack) guardB(b string) func() {
+	if s.Split != nil {
+		if m := s.Split.Mu[b]; m != nil {
+			m.Lock()
+			return m.Unlock
+		}
+	}
+	return s.guard()
+}
+
 // guard serialises access to the harness's shared data in free-running mode.
 func (s *Stack) guard() func() {
 	if s.FreeMu == nil {
@@ -247,10 +282,12 @@ func ReaderOf(s *Stack) io.Reader { return s.rng }
 
 type mailer struct{ s *Stack }
 
-func (m mailer) Send(_ context.Context, e authboss.Email) error {
+func (m mailer) Send(ctx context.Context, e authboss.Email) error {
 	m.s.point("mailer.Send")
-	defer m.s.guard()()
-	m.s.W.Mails = append(m.s.W.Mails, Mail{
+	b := BrowserOf(ctx)
+	defer m.s.guardB(b)()
+	mw := m.s.worldB(b)
+	mw.Mails = append(mw.Mails, Mail{
 		To: append([]string(nil), e.To...), Cc: append([]string(nil), e.Cc...), Bcc: append([]string(nil), e.Bcc...),
 		Subject: e.Subject, Text: e.TextBody, HTML: e.HTMLBody, Failed: m.s.MailFault,
 	})
@@ -267,14 +304,18 @@ func (m smsSender) Send(ctx context.Context, number, text string) error {
 	if err := m.s.seam("sms.Send", nil); err != nil {
 		return err
 	}
-	defer m.s.guard()()
-	m.s.W.SMS = append(m.s.W.SMS, SMSMsg{Number: number, Code: text, Browser: BrowserOf(ctx), At: m.s.W.Now})
+	defer m.s.guardB(BrowserOf(ctx))()
+	sw := m.s.worldB(BrowserOf(ctx))
+	sw.SMS = append(sw.SMS, SMSMsg{Number: number, Code: text, Browser: BrowserOf(ctx), At: sw.Now})
 	return nil
 }
 
 type logWriter struct{ s *Stack }
 
 func (l logWriter) Write(p []byte) (int, error) {
+	if l.s.Split != nil {
+		return len(p), nil // the log has no client to belong to; in split mode it is dropped rather than shared
+	}
 	defer l.s.guard()()
 	l.s.W.Log = append(l.s.W.Log, string(p))
 	return len(p), nil
